@@ -301,7 +301,6 @@ impl Part for C05 {
 // `terminate()` and publishes Stopped), preemptible at every `verif_point!` in supervision.rs,
 // `terminate`, `set_status` and the guard's clean-up.
 
-#[cfg(any())]
 pub mod e2part {
     use std::collections::BTreeSet;
     use std::sync::{Arc, Mutex};
